@@ -144,6 +144,16 @@ CHECKS = {
         "A False answer is never judged. The VSA backend's Boolean answers are judged by C24 (soundness of VSA evaluation).",
         "DESIGN.md §2 C10",
     ),
+    "C04": (
+        "model_checking",
+        "bounded-exhaustive enumeration of constructions (E1 transitions + boundary-value drivers for wide BV, FP and strings) on the real constructors under an address-space limit and a CPU-time alarm; outcome classifier",
+        "Every E1 transition at widths 1-3 (thorough 1-4); every binary / unary / extract / extend / conversion form over "
+        "boundary constants at widths 8, 64, 65 (thorough +16, 128) in concrete, python-int, symbolic and nested-shift "
+        "shapes; every FP operation x 5 rounding modes over the boundary alphabet of both sorts; every string operation "
+        "over an alphabet of metacharacter / escape / NUL / non-BMP strings. Acceptable: an AST or a documented claripy error.",
+        "Memory exhaustion and hangs are observable only on enumerated inputs (RLIMIT_AS 3 GiB, 8 s CPU).",
+        "DESIGN.md §2 C04",
+    ),
 }
 
 NOT_YET = "check not built yet in this session (planned; see DESIGN.md §2)"
